@@ -20,7 +20,7 @@
     item of [items] for the value [a] with the formatter and runs [unambiguous_ws_b]. *)
 From Coq Require Import ZArith List Bool.
 From V Require Import Base.Int Base.IO Base.Utf8 Model.Scan Model.Items Model.Parse
-  Proofs.Utf8 Proofs.Scan Proofs.C13 Proofs.C13Reads Proofs.C13Fmt Proofs.C13Examples Proofs.C13Names Proofs.C13Digits Proofs.C13Safe Proofs.C13Time Proofs.C13Date Proofs.C13OneWay Proofs.C13View Proofs.C13DateTime Proofs.C13DateForms.
+  Proofs.Utf8 Proofs.Scan Proofs.C13 Proofs.C13Reads Proofs.C13Fmt Proofs.C13Examples Proofs.C13Names Proofs.C13Digits Proofs.C13Safe Proofs.C13Time Proofs.C13Date Proofs.C13OneWay Proofs.C13View Proofs.C13DateTime Proofs.C13DateForms Proofs.C13TimeForms.
 From V Require Model.Parsed Model.Format Model.Strftime Model.Time Model.DateTime Spec.StrftimeDoc.
 Import ListNotations.
 Open Scope Z_scope.
@@ -328,6 +328,67 @@ Example C13_date_forms_roundtrip_inhabited :
   Proofs.C08Sweeps.repr (-262143) 1 (Proofs.C08Sweeps.mkdate (-262143) 1).
 Proof. exact date_forms_roundtrip_inhabited. Qed.
 Print Assumptions C13_date_forms_roundtrip_inhabited.
+
+(** ** format_parse_roundtrip END TO END for NaiveTime with a fraction and in 12-hour form, for
+    EVERY time of day (leap second on :59 included; second 60 is printed and read back):
+    "%H:%M:%S%.f" ([HMSF F_Nanosecond]; the shortest of 0 / 3 / 6 / 9 digits): the value itself;
+    "%H:%M:%S%.3f" / "%.6f" / "%.9f" ([HMSF (fixed_frac k)]): the value truncated to the printed
+    precision [trunc_frac k] -- the truncation the property states; nothing is lost with %.9f;
+    "%I:%M:%S %p" / %r ([IMSP_FMT]): the value truncated to whole seconds.
+    Through formatter, reader and Parsed::to_naive_time (C14's completeness theorem). *)
+Theorem C13_time_auto_roundtrip : forall t, valid_time t ->
+  exists text,
+    Model.Format.write_items (Model.Format.fa_of_time t) (HMSF F_Nanosecond) [] = Model.Format.fok text /\
+    (let+ p := parse Model.Parsed.parsed_new text (HMSF F_Nanosecond) in pr_of (Model.Parsed.to_naive_time p)) = pok t.
+Proof. exact time_auto_roundtrip. Qed.
+Print Assumptions C13_time_auto_roundtrip.
+
+Theorem C13_time_auto_parse_from_str : forall t fmt, valid_time t -> In fmt time_auto_formats ->
+  exists text,
+    Model.Format.delayed_display (Model.Format.fa_of_time t) (Model.Strftime.sf_new fmt) = Model.Format.fok text /\
+    time_parse_from_str text fmt = pok t.
+Proof. exact time_auto_parse_from_str. Qed.
+Print Assumptions C13_time_auto_parse_from_str.
+
+Theorem C13_time_frac_roundtrip : forall t k, valid_time t -> k = 3 \/ k = 6 \/ k = 9 ->
+  exists text,
+    Model.Format.write_items (Model.Format.fa_of_time t) (HMSF (fixed_frac k)) [] = Model.Format.fok text /\
+    (let+ p := parse Model.Parsed.parsed_new text (HMSF (fixed_frac k)) in pr_of (Model.Parsed.to_naive_time p))
+    = pok (trunc_frac k t).
+Proof. exact time_frac_roundtrip. Qed.
+Print Assumptions C13_time_frac_roundtrip.
+
+Theorem C13_time_frac_parse_from_str : forall t k, valid_time t -> k = 3 \/ k = 6 \/ k = 9 ->
+  exists text,
+    Model.Format.delayed_display (Model.Format.fa_of_time t) (Model.Strftime.sf_new (time_frac_format k)) = Model.Format.fok text /\
+    time_parse_from_str text (time_frac_format k) = pok (trunc_frac k t).
+Proof. exact time_frac_parse_from_str. Qed.
+Print Assumptions C13_time_frac_parse_from_str.
+
+Theorem C13_trunc_frac_9_is_identity : forall t, valid_time t -> trunc_frac 9 t = t.
+Proof. exact trunc_frac_9. Qed.
+Print Assumptions C13_trunc_frac_9_is_identity.
+
+Theorem C13_time_12h_roundtrip : forall t, valid_time t ->
+  exists text,
+    Model.Format.write_items (Model.Format.fa_of_time t) IMSP_FMT [] = Model.Format.fok text /\
+    (let+ p := parse Model.Parsed.parsed_new text IMSP_FMT in pr_of (Model.Parsed.to_naive_time p)) = pok (trunc_secs t).
+Proof. exact time_12h_roundtrip. Qed.
+Print Assumptions C13_time_12h_roundtrip.
+
+Theorem C13_time_12h_parse_from_str : forall t fmt, valid_time t -> In fmt time_12h_formats ->
+  exists text,
+    Model.Format.delayed_display (Model.Format.fa_of_time t) (Model.Strftime.sf_new fmt) = Model.Format.fok text /\
+    time_parse_from_str text fmt = pok (trunc_secs t).
+Proof. exact time_12h_parse_from_str. Qed.
+Print Assumptions C13_time_12h_parse_from_str.
+
+Example C13_time_forms_inhabited :
+  valid_time (Model.Time.mk_time 86399 1999999999) /\
+  trunc_frac 3 (Model.Time.mk_time 86399 1999999999) = Model.Time.mk_time 86399 1999000000 /\
+  trunc_frac 6 (Model.Time.mk_time 2094 26490708) = Model.Time.mk_time 2094 26490000.
+Proof. exact time_forms_inhabited. Qed.
+Print Assumptions C13_time_forms_inhabited.
 
 (* the writes of the reader run through the real setters: whenever every recognised write puts a
    field of the record [F] (within the setter's range) the setters succeed from any record below
